@@ -83,6 +83,34 @@ class Ctx:
             raise AnalysisError(f'{rule}: found {found} instances of "{what}", confirmed floor is {minimum} '
                                 f'- the rule would pass vacuously')
 
+    def borrow(self, prop_id: str, rule_ids, as_rule: str, contains=None, why: str = ''):
+        """Run the rules of another property and take over the obligations of the given rule ids under `as_rule`: the behaviour
+        behind this property rests on them too, so its own check reports them (DESIGN.md section 9, rounds 5 and 6).
+        `contains`: only obligations whose key contains one of these texts.  Obligations recorded as known findings of the
+        other property are not taken over (they are reported there).  Borrowed runs do not borrow again."""
+        if getattr(self, '_borrowed_run', False):
+            return 0
+        import importlib
+        cache = self.repo.__dict__.setdefault('_borrow_cache', {})
+        if prop_id not in cache:
+            sub = Ctx(prop_id, self.repo, self.tier)
+            sub._borrowed_run = True  # noqa: SLF001
+            importlib.import_module(f'rules.{prop_id.lower()}').run(sub)
+            cache[prop_id] = sub
+        sub = cache[prop_id]
+        known = {k['key'] for k in load_known().get('known', []) if k.get('property') == prop_id}
+        n = 0
+        for o in sub.obligations:
+            if o.rule not in rule_ids or o.key in known:
+                continue
+            if contains and not any(t in o.key for t in contains):
+                continue
+            n += 1
+            key = as_rule + o.key[len(o.rule):]
+            self.obligations.append(Obligation(as_rule, key, o.ok, o.what, o.file, o.line, o.witness))
+        self.floor(as_rule, n, 1, f'obligations taken over from {prop_id} {sorted(rule_ids)} {contains or ""} {why}'.strip())
+        return n
+
     def assume(self, text):
         if text not in self.assumptions:
             self.assumptions.append(text)
